@@ -10,7 +10,9 @@ Both the generator and the oracle are the TLA+ specification; Python only transp
 from __future__ import annotations
 
 import json
+import os
 import re
+import time
 from pathlib import Path
 
 from . import tlc
@@ -71,6 +73,40 @@ def generate(ctx: Ctx, base: str, consts: dict[str, str], modules: list[str] | N
     return cases, json.loads(cases.read_text())
 
 
+def _rss_gb() -> float:
+    try:
+        return int(open("/proc/self/statm").read().split()[1]) * os.sysconf("SC_PAGE_SIZE") / 2**30
+    except Exception:
+        return 0.0
+
+
+def execute(ctx: Ctx, cases: list, cases_file: Path, fn, every: int = 20) -> tuple[list, list]:
+    """Pass 2 with a resource guard: runs fn(case) for every case; if the process grows beyond VERIF_RSS_LIMIT_GB (default 6) or
+    the pass exceeds VERIF_EXEC_BUDGET_S (default 900 s quick / 5400 s thorough) the remaining cases are NOT run, the cases file is
+    cut to the executed prefix and judged as usual: a code change that makes the library leak or crawl shows its wrong answers in
+    the prefix (VIOLATION); if the prefix is clean, `judge` raises a machinery failure instead of reporting a pass."""
+    limit = float(os.environ.get("VERIF_RSS_LIMIT_GB", "6"))
+    budget = float(os.environ.get("VERIF_EXEC_BUDGET_S", "900" if ctx.quick else "5400"))
+    out_limit = float(os.environ.get("VERIF_RESULT_LIMIT_MB", "96")) * 2**20
+    t0, base_rss, results, out_bytes = time.time(), _rss_gb(), [], 0
+    for i, c in enumerate(cases):
+        if i % every == 0 and i and (_rss_gb() - base_rss > limit or time.time() - t0 > budget or out_bytes > out_limit):
+            why = (f"resource guard after {i}/{len(cases)} cases: rss {_rss_gb():.1f} GB (+{_rss_gb() - base_rss:.1f}), {time.time() - t0:.0f} s, "
+                   f"{out_bytes / 2**20:.0f} MB of results")
+            ctx.log(why)
+            ctx.coverage["resource_guard"] = why
+            ctx.guard_tripped = why
+            cases = cases[:i]
+            cases_file.write_text(json.dumps(cases))
+            break
+        results.append(fn(c))
+        try:
+            out_bytes += len(json.dumps(results[-1], default=str))
+        except Exception:
+            pass
+    return cases, results
+
+
 _B = re.compile(r'^"B\|(\d+)\|(.*)"$')
 
 
@@ -84,4 +120,6 @@ def judge(ctx: Ctx, base: str, consts: dict[str, str], cases: Path, results: Pat
         m = _B.match(line)
         if m:
             bad[int(m.group(1))] = set(re.findall(r'\\"([^"\\]*)\\"', m.group(2)))
+    if getattr(ctx, "guard_tripped", None) and not bad and tag in ("judge",):
+        raise MachineryError(f"{ctx.guard_tripped}; no violation among the executed cases, the rest was not examined")
     return bad
